@@ -214,6 +214,29 @@ theorem canon_sub_strict (d : Dialect) (t : ATy) (p : FP) (bs : Bytes) (v : AVal
     (h : parseField d .canon t p bs = .ok (v, rest)) : parseField d .strict t p bs = .ok (v, rest) :=
   parseField_canon_strict d t p bs _ h
 
+/-- **INTEGER of any length.** Minimal two's-complement content octets of any length (what `checkInteger` accepts strictly; `*big.Int`
+targets have no size limit) are what the encoder writes for the decoded value — in particular negative values whose content starts
+`ff 00 …`, `80 00 …`, `ff 7f …`. -/
+theorem marshal_parse_integer (c : Bytes) (h : checkInteger false c = .ok ()) : intBytes (intOfBytes c) = c :=
+  intBytes_intOfBytes c h
+
+example : checkInteger false [0xff, 0x00, 0x01] = .ok () ∧ intOfBytes [0xff, 0x00, 0x01] = -65535 := ⟨rfl, by decide⟩
+
+/-- **`makeBigInt` as the working tree has it** (statement by statement, regenerated): for n < 0 invert the octets of −n−1 and put `ff` in
+front when the top bit is clear; 0 is one zero octet; for n > 0 the magnitude with `00` in front when the top bit is set. This is the
+algorithm whose output `intBytes` (minimal two's complement) models and against which it is compared on every run; any rewrite of the
+function changes these lists and this `decide` fails. (The equality of this algorithm with `intBytes` is tied by correspondence, not proved.) -/
+theorem makeBigInt_regenerated :
+    Gen.makeBigIntNegative =
+      ["nMinus1 := new(big.Int).Neg(n)", "nMinus1.Sub(nMinus1, bigOne)", "bytes := nMinus1.Bytes()",
+       "for i := range bytes { bytes[i] ^= 0xff }",
+       "if len(bytes) == 0 || bytes[0]&0x80 == 0 { return multiEncoder([]encoder{byteFFEncoder, bytesEncoder(bytes)}), nil }",
+       "return bytesEncoder(bytes), nil"] ∧
+    Gen.makeBigIntZeroPositive =
+      ["return byte00Encoder, nil", "bytes := n.Bytes()",
+       "if len(bytes) > 0 && bytes[0]&0x80 != 0 { return multiEncoder([]encoder{byte00Encoder, bytesEncoder(bytes)}), nil }",
+       "return bytesEncoder(bytes), nil"] := by decide
+
 /- FULL (still open, the converse direction): parse_marshal —
      WfVal t p v → marshalField d t p v = .ok b → parseField d .canon t p (b ++ rest) = .ok (v, rest)
    i.e. `Canon` contains everything `Marshal` writes (non-vacuity of `Canon` independent of the parser). Not proved; what stands in
